@@ -338,6 +338,33 @@ func c09(r *core.Run) {
 						}
 					}
 				}
+				// ... and nothing else about the pattern's text exempts it: a pattern ending in a one-token
+				// wildcard still needs the method token ('*' matches exactly one token)
+				other := ""
+				for _, ed := range dominatingEdges(bo) {
+					cnd, _ := ed.Norm()
+					c2, ok := cnd.(*ssa.BinOp)
+					if !ok || (c2.Op != token.NEQ && c2.Op != token.EQL) {
+						continue
+					}
+					k, isC := core.ConstInt(c2.Y)
+					if !isC || k == '>' {
+						continue
+					}
+					// a byte of a string compared with another character constant
+					x := core.Strip(c2.X)
+					isByte := false
+					switch y := x.(type) {
+					case *ssa.Index:
+						isByte = isStringType(y.X.Type())
+					case *ssa.Lookup:
+						isByte = isStringType(y.X.Type())
+					}
+					if isByte && k > 32 && k < 127 {
+						other = fmt.Sprintf("%q", rune(k))
+					}
+				}
+				r.Check(other == "", "S2", core.FuncName(sub), "method-wildcard-skipped-only-for-'>'", p.InstrPos(bo), "only a trailing full wildcard dispenses with the method token", "the method wildcard is also left out for patterns ending in "+other+": call and auth subjects under such a pattern (which have one more token, the method) match no subscription")
 				r.Check(g, "S2", core.FuncName(sub), "method-wildcard-not-after-'>'", p.InstrPos(bo), "'.*' is appended only when the pattern does not end in '>'", "a method wildcard can be appended after a full wildcard (invalid NATS subject)")
 			}
 		}
